@@ -256,6 +256,9 @@ Section Message.
         match uvarint b with
         | None => RErr
         | Some (x, b1) =>
+          (* every message type registers field number 0 with an unmarshaler that fails:
+             "illegal tag 0" (computeUnmarshalInfo) *)
+          if x / 8 =? 0 then RErr else
           match read_wval (x mod 8) b1 with
           | RErr => RErr
           | RCrash => RCrash
